@@ -32,6 +32,7 @@ import (
 	"strings"
 	"syscall"
 	"testing"
+	"time"
 
 	"github.com/New-JAMneration/JAM-Protocol/internal/types"
 	"github.com/New-JAMneration/JAM-Protocol/internal/zzverif/vlib"
@@ -1207,7 +1208,6 @@ type cgenChildSink struct {
 	evals, trans      uint64
 	skipped           uint64
 	hint              string
-	hintDirty         bool
 	classes           map[string]bool
 	sigs              map[string]*cgenPending
 	sinceFlush        int
@@ -1262,11 +1262,6 @@ func (s *cgenChildSink) writeRec(unit, ord uint64, done byte) {
 	binary.LittleEndian.PutUint64(rec[24:], s.trans)
 	rec[32] = done
 	binary.LittleEndian.PutUint64(rec[152:], s.skipped)
-	if s.hintDirty {
-		n := copy(rec[34:144], s.hint)
-		rec[33] = byte(n)
-		s.hintDirty = false
-	}
 }
 
 func (s *cgenChildSink) Begin(unit, ord uint64) bool {
@@ -1288,7 +1283,9 @@ func (s *cgenChildSink) Hint(h string) {
 		h = h[:110]
 	}
 	if h != s.hint {
-		s.hint, s.hintDirty = h, true
+		s.hint = h
+		n := copy(s.mm[34:144], h)
+		s.mm[33] = byte(n)
 	}
 }
 
@@ -1359,7 +1356,9 @@ func cgenParentRun(r *vlib.Run, t *testing.T, testName string, seeds []cgenSeed,
 	defer os.Remove(curPath)
 	fromUnit, fromOrd := uint64(0), uint64(0)
 	deaths := 0
+	t0 := time.Now()
 	for {
+		tc := time.Now()
 		os.Remove(curPath)
 		cmd := exec.Command(os.Args[0], "-test.run", "^"+testName+"$", "-test.count", "1", "-test.timeout", "0")
 		env := []string{}
@@ -1443,6 +1442,9 @@ func cgenParentRun(r *vlib.Run, t *testing.T, testName string, seeds []cgenSeed,
 			why = strings.TrimPrefix(m[1], "runtime: ")
 		}
 		deaths++
+		if deaths <= 50 || deaths%100 == 0 {
+			fmt.Printf("cgen: shard %d death #%d at unit %d case %d after %.1fs (child ran %.2fs): %s hint=%q\n", r.Shard, deaths, unit, ord, time.Since(t0).Seconds(), time.Since(tc).Seconds(), why, string(rec[34:34+int(rec[33])]))
+		}
 		onDeath(cgenDeath{Unit: unit, Ord: ord, Hint: string(rec[34 : 34+int(rec[33])]), Why: why, Tail: tail})
 		fromUnit, fromOrd = unit, ord+1
 		if deaths > 2000000 {
